@@ -1,5 +1,8 @@
 #!/venv/bin/python
 """C12 — the offline arena plan is self-consistent and reported memory is sufficient.
+Scheduler-bookkeeping stage (harness/sched_lib.py, design.d/SchedMem.md): the Lean model of the memory bookkeeping of scheduler.py /
+cascade_builder.py (Model/SchedMem.lean, theorems in Props/C12Sched.lean) must reproduce every captured call of the real Scheduler /
+CascadeBuilder, and the Lean Spec (Spec/SchedMem.lean) judges the real estimates, snapshots, buffers and fast-storage decisions.
 Every output model is read with the plain flatbuffer walker; the Lean checker Arena.check judges the
 OfflineMemoryAllocation plan (liveness under the operator order, overlap, alignment, scratch tensor);
 the reported figures (summary CSV, console) are compared with the extent the plan requires in Lean.
@@ -18,6 +21,7 @@ import inplace_lib
 import liverange_lib
 import pipe_common
 import pipeline
+import sched_lib
 from common import Check, main_wrapper
 
 
@@ -54,22 +58,25 @@ def arena_line(model, align):
 
 def main():
     ck = Check("C12", "translation_validation")
-    ck.lean_stage(["VelaVerif.Props.C12", "VelaVerif.Props.C12LiveRange", "VelaVerif.Props.C12InPlace"])
+    ck.lean_stage(["VelaVerif.Props.C12", "VelaVerif.Props.C12LiveRange", "VelaVerif.Props.C12InPlace", "VelaVerif.Props.C12Sched"])
     n = 6000 if ck.thorough else 320
     profiles = ["cpu", "mixed", "pattern", "cascade", "weights", "pattern", "cpu", "lut", "pattern", "elementwise"]
     pipeline.load_vela()
     liverange_lib.install()      # harness-side wrapping of live_range.extract_*, before the workers are forked
     inplace_lib.install()        # ... of extract_npu_subgraphs and _get_ifm_to_fuse (design.d/InPlace.md)
     inplace_lib.install_profile()
+    sched_lib.install()          # ... of the Scheduler / CascadeBuilder memory bookkeeping (design.d/SchedMem.md)
+    if sched_lib.replay(ck):
+        return
     ip_stub_stats = inplace_lib.stage(ck, [], prefix="inplace_stub_", compiled=False)     # function level first
-    outs = pipe_common.run_corpus(ck, n, profiles=profiles, want={"out_model": True, "extra": inplace_lib.extra_with_liverange},
+    outs = pipe_common.run_corpus(ck, n, profiles=profiles, want={"out_model": True, "extra": sched_lib.extra_c12},
                                   corpus_first=False, sweep=True)
     if ck.replay_arg is None:
         # boundary shapes of the in-place decision chain (harness/inplace_nets.py): every variant once (4x thorough)
         import inplace_nets
 
         outs += pipe_common.run_corpus(ck, inplace_nets.n_variants() * (4 if ck.thorough else 1), profiles=["inplace"],
-                                       want={"out_model": True, "extra": inplace_lib.extra_with_liverange},
+                                       want={"out_model": True, "extra": sched_lib.extra_c12},
                                        corpus_first=False, sweep=False)
     ip_known = inplace_lib.classify(ck, outs)
     lines, owners, extra = [], [], []
@@ -157,10 +164,20 @@ def main():
         ck.sample({"network": o["desc"], "opts": o["opts"], "verdict": ans})
     lr_stats = liverange_lib.stage(ck, outs, known=ip_known)
     ip_stats = inplace_lib.stage(ck, outs, stub=False)
+    # scheduler memory bookkeeping: the compilations above + a cascade-heavy corpus of its own (small SRAM targets, Dedicated_Sram)
+    sched_outs = sched_lib.corpus(ck, 1200 if ck.thorough else 100) if ck.replay_arg is None else []
+    if ck.replay_arg is None:
+        # generated live-range sets through the real use_fast_storage_for_feature_maps / FastStorageComponentAllocator
+        sched_outs += sched_lib.stub_fast(ck.rng, 3000 if ck.thorough else 300)
+        # generated operator chains through the real CascadeBuilder.build_cascades, generated ranges through get_temporal_memory_usage
+        sched_outs += sched_lib.stub_builder(ck.rng, 5000 if ck.thorough else 500)
+        sched_outs += sched_lib.stub_tusage(ck.rng, 2000 if ck.thorough else 200)
+    sc_stats = sched_lib.stage(ck, outs + sched_outs)
     ck.finish({
         **lr_stats,
         **ip_stub_stats,
         **ip_stats,
+        **sc_stats,
         "programs": programs,
         "disagreements_checked": rejected,
         "evaluations": len(outs),
@@ -168,7 +185,11 @@ def main():
         "reported_figures_checked": len(rep_reqs),
         "rule": "program = output model of one compiled (network, configuration); non-trivial when it plans >= 3 arena tensors; "
                 "distinct by (profile, index, options). liverange_instances = calls of extract_live_ranges_from_schedule / "
-                "_from_cascaded_passes on a fresh graph, distinct by abstract schedule, non-trivial when >= 3 ranges result",
+                "_from_cascaded_passes on a fresh graph, distinct by abstract schedule, non-trivial when >= 3 ranges result. "
+                "sched_model_requests = calls of the modelled scheduler functions (build_cascades, optimize_sub_schedule, "
+                "get_temporal_memory_usage, use_fast_storage_for_feature_maps, propose_operator_buffering, ...) on the compilations "
+                "of this check and of the cascade-heavy corpus harness/sched_nets.py; sched_spec_requests = Lean Spec verdicts on "
+                "the real values of those calls",
         "exhaustive": False,
     }, assumptions=["liveness is taken from the operator order of the output graph; an input dying at and an output born at the same "
                     "Ethos-U operator may share bytes (ordering inside the stream is C03's subject)",
